@@ -1,4 +1,5 @@
 """C14 — the global grid stays consistent over any call history; devices are pure, seedable, non-aliasing."""
+import json
 import math
 import os
 import warnings
@@ -155,6 +156,8 @@ def gen_histories(rng, tier):
                 cur = (16, 1e9)
             else:
                 op, cur = _gen_call(rng, cur, commensurate)
+                if rng.random() < 0.4:
+                    op["pos"] = True
                 # the code's own rule for which of the values are in force
                 if not op.get("sps") and not op.get("R") and op.get("fs") and not commensurate:
                     cur = (cur[0], cur[1])
@@ -184,6 +187,8 @@ def gen_histories(rng, tier):
     ]
     for ops in D:
         cases.append({"kind": "hist", "ops": ops})
+    for ops in D[:22]:            # the same directed histories with every call passed positionally
+        cases.append({"kind": "hist", "ops": [dict(op, pos=True) if op["op"] == "call" else op for op in ops]})
     # names that a substring / prefix test would confuse with the built-in attributes
     for nm in SUBSTR_NAMES + NEAR_NAMES:
         cases.append({"kind": "hist", "ops": [{"op": "call", "kw": {nm: 3, "alpha": 1}}, {"op": "clean"}, {"op": "call", "sps": 8, "R": 1e9}]})
@@ -227,7 +232,13 @@ def _kw_value(v):
     return v
 
 
-def _do_op(gv, op):
+# documented positional order of gv(...) at /repo HEAD 8caea4c (a literal, NOT read from the code under test)
+GV_ORDER = ["sps", "R", "fs", "wavelength", "N"]
+
+
+def _do_op(gv, op, flip=False):
+    """`op["pos"]` (xor `flip`): pass sps, R, fs, wavelength, N POSITIONALLY in the documented order (absent ones as their
+    documented defaults None / 1550e-9), custom attributes by keyword; otherwise everything by keyword"""
     if op["op"] == "clean":
         gv.clean()
         return
@@ -237,9 +248,15 @@ def _do_op(gv, op):
             kw[k] = op[k]
     if "wl" in op:
         kw["wavelength"] = op["wl"]
+    args = []
+    if bool(op.get("pos")) != flip:
+        full = {"sps": None, "R": None, "fs": None, "wavelength": WL_DEFAULT, "N": None}
+        full.update(kw)
+        args = [full[name] for name in GV_ORDER]
+        kw = {}
     for k, v in (op.get("kw") or {}).items():
         kw[k] = _kw_value(v)
-    ret = gv(**kw)
+    ret = gv(*args, **kw)
     if ret is not gv:
         raise AssertionError("gv(...) must return the instance itself")
 
@@ -292,6 +309,30 @@ def run_hist(case):
             if isinstance(fin.get("t"), np.ndarray) and fin["t"].size <= 1024:
                 res["t_full"] = [float(x) for x in fin["t"]]
                 res["w_full"] = [float(x) for x in fin["w"]]
+        # positional twin: the same history with every call's passing style flipped must give the same states
+        if res["status"] == "ok" and any(op["op"] == "call" for op in case["ops"]):
+            _hard_reset(gv)
+            for i, op in enumerate(case["ops"]):
+                try:
+                    with warnings.catch_warnings():
+                        warnings.simplefilter("ignore")
+                        with time_limit(20):
+                            _do_op(gv, op, flip=True)
+                    st = _snap(gv)
+                except Timeout as e:
+                    st = {"timeout": str(e)}
+                except Exception as e:  # noqa
+                    st = {"err": exc_enum(e), "detail": repr(e)[:160]}
+                ref = res["states"][i] if i < len(res["states"]) else None
+                same = ref is not None and (("err" in st and "err" in ref and st["err"] == ref["err"]) or json.dumps(st, sort_keys=True)
+                                            == json.dumps(ref, sort_keys=True))
+                if not same:
+                    style = "keyword" if op.get("pos") else "positional"
+                    res["positional"] = (f"op {i} {op} passed by {style} gives {str({k: v for k, v in st.items() if k in ('sps', 'R', 'fs', 'wavelength', 'f0', 'N', 'err')})}, "
+                                         f"the other style gave {str({k: v for k, v in (ref or {}).items() if k in ('sps', 'R', 'fs', 'wavelength', 'f0', 'N', 'err')})}")
+                    break
+                if "err" in st:
+                    break
     except Exception as e:  # noqa   (gv.clean() of the set-up raised)
         res.update(status="err", err=exc_enum(e), detail=repr(e)[:300])
     finally:
@@ -500,6 +541,9 @@ def oracle_hist(case, res):
         return [("C14:clean-raises", f"gv.clean() / the set-up of the history raised: {res.get('detail')}")]
     if res.get("reset_error"):
         v.append(("C14:clean-raises", f"gv.clean() after the history {str(case['ops'])[:200]} raised {res['reset_error']}"))
+    if res.get("positional"):
+        v.append(("C14:positional:gv", f"gv(...) with {GV_ORDER} passed positionally differs from the keyword call in the history "
+                  f"{str(case['ops'])[:300]}: {res['positional']}"))
     if not res.get("consts_ok"):
         v.append(("C14:constants", "scipy.constants.c / pi are not the assumed values"))
     prev = res["start"]
@@ -1088,6 +1132,8 @@ def features(case, res):
                 f.append("call:" + (",".join(given) or "none"))
                 if any(k in op and not _truthy(op[k]) for k in ("sps", "R", "fs")):
                     f.append("falsy-arg")
+                if op.get("pos"):
+                    f.append("call-positional")
                 if "N" in op:
                     f.append("N-passed")
                 if "wl" in op:
